@@ -300,8 +300,17 @@ def p_key_reuse(d, d2, zs, order, msgs):
     return None
 
 
+def p_det_k(d, z):
+    """1 <= d < n, 0 <= z < 2^256: deterministic_k is the RFC 6979 nonce (independent transcription); the
+    secret and the digest enter HMAC as 32-byte strings whatever their leading zero bytes"""
+    got, want = _mk_key(d).deterministic_k(z), ecref.rfc6979_k(d, z.to_bytes(32, "big"))
+    if got != want:
+        return f"deterministic_k is {got}, RFC 6979 gives {want}"
+    return None
+
+
 PROPS = {"sign": p_sign, "verify_ref": p_verify_ref, "sign_k": p_sign_k, "der_rt": p_der_rt,
-         "key_reuse": p_key_reuse}
+         "key_reuse": p_key_reuse, "det_k": p_det_k}
 
 # ---------------------------------------------------------------- generators
 
@@ -410,7 +419,59 @@ def der_malformed(r, enc):
     yield b"\x30\x06\x02\x01\x01\x03\x01\x01"
 
 
+def rfc6979_stages(d, z):
+    """the HMAC outputs of the RFC 6979 derivation, in order: K1, V1, K2, V2, T (first candidate)"""
+    def hm(k, m):
+        return _hmac.new(k, m, hashlib.sha256).digest()
+    x, h = d.to_bytes(32, "big"), (z - N if z >= N else z).to_bytes(32, "big")
+    v, k = b"\x01" * 32, b"\x00" * 32
+    k1 = hm(k, v + b"\x00" + x + h)
+    v1 = hm(k1, v)
+    k2 = hm(k1, v1 + b"\x01" + x + h)
+    v2 = hm(k2, v1)
+    return [("K1", k1), ("V1", v1), ("K2", k2), ("V2", v2), ("T", hm(k2, v2))]
+
+
 def generate(ctx):
+    yield from _generate(ctx)
+    r = ctx.rng
+    # ---- boundary class: byte strings with leading zero bytes inside the RFC 6979 derivation
+    # (a) the 32-byte forms of the secret and of the digest start with 1..31 zero bytes
+    signed = 0
+    for nz in range(1, 32):
+        top = 8 * (32 - nz)
+        small = [(1 << (top - 1)) | r.getrandbits(top - 1) for _ in range(2)]
+        for d, z in ((small[0], r.getrandbits(256)), (r.randrange(1, N), small[1]), (small[0], small[1])):
+            ctx.label("det_k/leading-zero-bytes-in-secret-or-digest")
+            yield ("corr", "det_k", [d, z])
+            yield ("corr", "rfc6979", [d, z.to_bytes(32, "big")])
+            yield ("prop", "det_k", [d, z])
+        if nz in (1, 2, 16, 31) or ctx.tier != "quick":
+            ctx.label("sign/leading-zero-bytes-in-secret-and-digest")
+            yield ("corr", "sign", [small[0], small[1]])
+            yield ("prop", "sign", [small[0], small[1]])
+    # (b) an HMAC output (K1, V1, K2, V2 or the candidate T) starts with a zero byte: searched for, per stage
+    want = {(name, nzb) for name in ("K1", "V1", "K2", "V2", "T") for nzb in (1, 2)}
+    found = {}
+    for _ in range(ctx.n(200000, 600000)):
+        if len(found) == len(want):
+            break
+        d, z = r.randrange(1, N), r.getrandbits(256)
+        for name, out in rfc6979_stages(d, z):
+            nzb = len(out) - len(out.lstrip(b"\x00"))
+            if nzb and (name, min(nzb, 2)) in want and (name, min(nzb, 2)) not in found:
+                found[(name, min(nzb, 2))] = (d, z)
+    for (name, nzb), (d, z) in sorted(found.items()):
+        ctx.label("det_k/hmac-output-%s-starts-with-%d-zero-byte(s)" % (name, nzb))
+        yield ("corr", "det_k", [d, z])
+        yield ("corr", "rfc6979", [d, z.to_bytes(32, "big")])
+        yield ("prop", "det_k", [d, z])
+        if nzb == 1 and name in ("K2", "T"):
+            yield ("corr", "sign", [d, z])
+            yield ("prop", "sign", [d, z])
+
+
+def _generate(ctx):
     r = ctx.rng
     # ---- RFC 6979 nonce: cheap (no curve arithmetic), so sweep widely
     for d in SECRETS + BAD_SECRETS:
